@@ -390,7 +390,8 @@ Proof.
       | cbn; lia ]
     | ].
   all: destruct (ch1 =? 47) eqn:E47;
-    [ | eapply tok_good_bind; [apply scan_operator_good|]; intros [[t c] r] H0; cbn in *; lia ].
+    [ | destruct (57344 <=? ch1); [cbn; discriminate|];
+        eapply tok_good_bind; [apply scan_operator_good|]; intros [[t c] r] H0; cbn in *; lia ].
   - (* f = 0: a comment needs at least two runes *)
     pose proof (next_good rest1) as Hn.
     destruct (next rest1) as [[c r]|e] eqn:En; cbn [lbind]; [|exact Hn].
@@ -413,16 +414,6 @@ Qed.
 (* ---- the token loop ---- *)
 Definition has_fuel_err (ts : list token) : Prop :=
   exists txt, In (mktok (TErr EOutOfFuel) txt) ts.
-
-Lemma norm_tok_not_err t e : tk t <> TErr e -> tk (norm_tok t) <> TErr e.
-Proof.
-  intros H. unfold norm_tok. destruct (tk t) eqn:K; try (rewrite K; exact H).
-  destruct ((57346 <=? c) && (c <=? 57393)) eqn:R; [|rewrite K; discriminate].
-  cbn [tk].
-  assert (Hn: (Z.to_nat (c - 57346) < 48)%nat) by lia.
-  remember (Z.to_nat (c - 57346)) as n eqn:En. clear En R K H.
-  do 48 (destruct n as [|n]; [cbn; discriminate|]). lia.
-Qed.
 
 (* ---- Lex never returns the pseudo-token TErr ---- *)
 Definition kind_ok (k : tkind) : Prop := match k with TErr _ => False | _ => True end.
@@ -513,6 +504,7 @@ Proof.
   destruct (ch1 =? 46).
   { apply resP_bind_any. intros [c r]. destruct (is_decimal c); [|exact I].
     eapply resP_bind; [apply scan_number_kind|]. intros [[[k txt] c'] r'] K. exact K. }
+  destruct (57344 <=? ch1); [exact I|].
   eapply resP_bind; [apply scan_operator_kind|]. intros [[t c] r] K. exact K.
 Qed.
 
@@ -525,9 +517,8 @@ Proof.
   pose proof (lex_tok_good (length rest) ch rest Hm) as Ht.
   destruct (lex_tok L (S (length rest)) ch rest) as [[[[t|] c] r]|e] eqn:El; cbn [tok_good] in Ht.
   - intros [txt [Hin|Hin]].
-    + assert (K: tk (norm_tok t) <> TErr EOutOfFuel).
-      { apply norm_tok_not_err.
-        pose proof (lex_tok_kind (S (length rest)) ch rest) as Kd. rewrite El in Kd.
+    + assert (K: tk t <> TErr EOutOfFuel).
+      { pose proof (lex_tok_kind (S (length rest)) ch rest) as Kd. rewrite El in Kd.
         cbn in Kd. intro K. rewrite K in Kd. exact Kd. }
       rewrite Hin in K. cbn in K. congruence.
     + apply (IH c r); [lia|]. exists txt. exact Hin.
@@ -566,3 +557,256 @@ End L.
 
 Print Assumptions lex_total.
 Print Assumptions lex_one_total.
+
+(* ================================================================== *)
+(* Part 2 (C03): the value of a token does not depend on what follows it.
+
+   [lex_one L (w ++ rest)] is one Lex call of a fresh lexer on the runes
+   w ++ rest.  "Leaves exactly rest" means: the returned lexer state (ch, tl)
+   is the one-rune look-ahead view of rest. *)
+
+Definition view (rest : list Z) : Z * list Z :=
+  match rest with [] => (-1, []) | c :: r => (c, r) end.
+
+(* the first rune of the continuation is something next() can read *)
+Definition readable_head (rest : list Z) : bool :=
+  match rest with [] => true | c :: _ => 0 <? c end.
+
+Lemma next_view rest : readable_head rest = true -> next rest = LOk (view rest).
+Proof.
+  destruct rest as [|c r]; cbn; [reflexivity|]. intros H. unfold check.
+  replace (c =? 0) with false by lia. replace (c <? 0) with false by lia. reflexivity.
+Qed.
+
+Definition head_not (bad : list Z) (rest : list Z) : bool :=
+  match rest with [] => true | c :: _ => negb (existsb (Z.eqb c) bad) end.
+
+(* operator and punctuation spellings: (runes, token kind, runes that must
+   not follow because they would make a longer operator / a comment) *)
+Definition op_table : list (list Z * tkind * list Z) :=
+  [ ([61; 61], TEqual, []);            (* == *)
+    ([33; 61], TNotEqual, []);         (* != *)
+    ([60; 62], TNotEqual, []);         (* <> *)
+    ([60], TLess, [61; 62]);           (* <  *)
+    ([60; 61], TLessEq, []);           (* <= *)
+    ([62], TGreater, [61]);            (* >  *)
+    ([62; 61], TGreaterEq, []);        (* >= *)
+    ([33], TNot, [61]);                (* !  *)
+    ([38; 38], TAnd, []);              (* && *)
+    ([124; 124], TOr, []);             (* || *)
+    ([42; 42], TAny, []);              (* ** *)
+    ([42], TChar 42, [42]);            (* *  *)
+    ([43], TChar 43, []);              (* +  *)
+    ([45], TChar 45, []);              (* -  *)
+    ([37], TChar 37, []);              (* %  *)
+    ([47], TChar 47, [42]);            (* /  *)
+    ([40], TChar 40, []); ([41], TChar 41, []);
+    ([91], TChar 91, []); ([93], TChar 93, []);
+    ([123], TChar 123, []); ([125], TChar 125, []);
+    ([44], TChar 44, []); ([63], TChar 63, []); ([64], TChar 64, []) ].
+
+Definition op_entry_independent (L : GoLib) (e : list Z * tkind * list Z) : Prop :=
+  let '(w, k, bad) := e in
+  forall rest, readable_head rest = true -> head_not bad rest = true ->
+    lex_one L (w ++ rest) =
+      LOk (Some (mktok k (string_of_runes w)), fst (view rest), snd (view rest)).
+
+Section Indep.
+Variable L : GoLib.
+Hypothesis HL : Laws L.
+
+Lemma not_ident_ascii c b :
+  0 <= c < 128 ->
+  ((65 <=? c) && (c <=? 90)) || ((97 <=? c) && (c <=? 122)) || (c =? 95) || (c =? 92) = false ->
+  is_ident_rune L c b = false \/ b = false.
+Proof.
+  intros R H. destruct b; [left|right; reflexivity].
+  unfold is_ident_rune. rewrite (xid_start_ascii L HL) by exact R.
+  destruct (c =? 95) eqn:A; [lia|]. destruct (c =? 92) eqn:B; [lia|]. cbn.
+  destruct (0 <=? c); cbn; [|reflexivity]. lia.
+Qed.
+
+Lemma ident_start_false c :
+  0 <= c < 128 ->
+  ((65 <=? c) && (c <=? 90)) || ((97 <=? c) && (c <=? 122)) || (c =? 95) || (c =? 92) = false ->
+  is_ident_rune L c true = false.
+Proof. intros R H. destruct (not_ident_ascii c true R H); [assumption|discriminate]. Qed.
+
+Lemma skip_ws_not ch rest : is_ws ch = false -> skip_ws ch rest = LOk (ch, rest).
+Proof. intros H. destruct rest; cbn [skip_ws]; rewrite H; reflexivity. Qed.
+
+(* Lex dispatches a rune that starts no identifier, number, string, variable,
+   comment or ".5" to scanOperator *)
+Lemma lex_tok_op f ch rest :
+  is_ws ch = false -> is_ident_rune L ch true = false -> is_decimal ch = false ->
+  (ch <? 0) = false -> (ch =? 34) = false -> (ch =? 36) = false -> (ch =? 47) = false ->
+  (ch =? 46) = false -> (57344 <=? ch) = false ->
+  lex_tok L (S f) ch rest = (let* (t, c, r) := scan_operator ch rest in LOk (Some t, c, r)).
+Proof.
+  intros H1 H2 H3 H4 H5 H6 H7 H8 H9. cbn [lex_tok]. rewrite skip_ws_not by exact H1. cbn [lbind].
+  rewrite H2, H3, H4, H5, H6, H7, H8, H9. reflexivity.
+Qed.
+
+Lemma lex_tok_slash f rest :
+  head_not [42] rest = true -> readable_head rest = true ->
+  lex_tok L (S f) 47 rest = LOk (Some (mktok (TChar 47) "/"), fst (view rest), snd (view rest)).
+Proof.
+  intros Hb Hr. cbn [lex_tok]. rewrite skip_ws_not by reflexivity. cbn [lbind].
+  rewrite ident_start_false by (cbn; first [lia|reflexivity]).
+  change (is_decimal 47) with false. change (47 <? 0) with false. change (47 =? 34) with false.
+  change (47 =? 36) with false. change (47 =? 47) with true. cbn iota.
+  rewrite next_view by exact Hr. cbn [lbind].
+  destruct rest as [|c r]; cbn [view fst snd]; [reflexivity|].
+  cbn [head_not existsb orb negb] in Hb.
+  replace (c =? 42) with false by (destruct (c =? 42); [discriminate|reflexivity]). reflexivity.
+Qed.
+
+Theorem operators_independent : Forall (op_entry_independent L) op_table.
+Proof.
+  unfold op_table.
+  repeat (apply Forall_cons; [|]); try apply Forall_nil.
+  all: unfold op_entry_independent; intros rest Hr Hb.
+  all: unfold lex_one; cbn [app next check lbind length].
+  all: try (change (check 47) with (LOk tt); cbn [lbind]; apply lex_tok_slash; assumption).
+  all: match goal with |- context [check ?c] => change (check c) with (LOk tt) end; cbn [lbind].
+  all: rewrite lex_tok_op;
+    [ | reflexivity | apply ident_start_false; [lia|reflexivity] | reflexivity | reflexivity
+      | reflexivity | reflexivity | reflexivity | reflexivity | reflexivity ].
+  all: unfold scan_operator.
+  all: destruct rest as [|c r];
+    [ cbn; reflexivity
+    | cbn [head_not readable_head existsb orb negb] in Hr, Hb;
+      assert (Hc: check c = LOk tt)
+        by (unfold check; replace (c =? 0) with false by lia; replace (c <? 0) with false by lia; reflexivity);
+      cbn [next lbind app];
+      repeat match goal with
+             | |- context [check c] => rewrite Hc
+             | |- context [check ?n] => change (check n) with (LOk tt)
+             end;
+      cbn [lbind Z.eqb view fst snd Pos.eqb next];
+      repeat match goal with
+             | |- context [check c] => rewrite Hc; cbn [lbind]
+             end;
+      repeat match goal with
+             | |- context [c =? ?n] => first [ replace (c =? n) with false by lia | destruct (c =? n) eqn:? ]
+             end;
+      try reflexivity; try lia ].
+Qed.
+End Indep.
+
+(* ---- decimal integer literals ---- *)
+Section IntLit.
+Variable L : GoLib.
+Hypothesis HL : Laws L.
+
+(* what may follow a decimal integer literal: end of input, or a readable rune
+   that is not a digit, '_', '.', 'e'/'E', and does not start an identifier
+   (neither itself nor its lower-cased form, which is what scanNumber tests) *)
+Definition int_boundary (rest : list Z) : bool :=
+  match rest with
+  | [] => true
+  | c :: _ =>
+      (0 <? c) && negb (is_decimal c) && negb (c =? 95) && negb (c =? 46) &&
+      negb (lower c =? 101) && negb (is_ident_rune L (lower c) true) && negb (is_ident_rune L c true)
+  end.
+
+Lemma digits_step_dec c r ch acc ds inv :
+  is_decimal ch = true -> 0 < c ->
+  digits 10 ch (c :: r) acc ds inv = digits 10 c r (acc ++ [ch]) (Z.lor ds 1) inv.
+Proof.
+  intros Hd Hc. cbn [digits]. change (10 <=? 10) with true. cbn iota. rewrite Hd. cbn [orb].
+  assert (E95: (ch =? 95) = false) by (unfold is_decimal in Hd; lia). rewrite E95.
+  unfold check. replace (c =? 0) with false by lia. replace (c <? 0) with false by lia. cbn [lbind].
+  assert ((48 + 10 <=? ch) = false) by (unfold is_decimal in Hd; lia).
+  rewrite H. rewrite !andb_false_r. cbn [negb andb]. reflexivity.
+Qed.
+
+Lemma digits_stop base ch rest acc ds inv :
+  (if base <=? 10 then is_decimal ch else is_hex ch) || (ch =? 95) = false ->
+  digits base ch rest acc ds inv = LOk (ch, rest, acc, ds, inv).
+Proof. intros H. destruct rest; cbn [digits]; rewrite H; reflexivity. Qed.
+
+Lemma digits10_run ds : forall ch rest acc dsb,
+  is_decimal ch = true -> forallb is_decimal ds = true -> int_boundary rest = true ->
+  digits 10 ch (ds ++ rest) acc dsb 0 =
+    LOk (fst (view rest), snd (view rest), acc ++ ch :: ds, Z.lor dsb 1, 0).
+Proof.
+  induction ds as [|d ds IH]; intros ch rest acc dsb Hch Hds Hb.
+  - cbn [app]. destruct rest as [|c r].
+    + cbn [digits]. change (10 <=? 10) with true. cbn iota. rewrite Hch. cbn [orb view fst snd].
+      assert (E95: (ch =? 95) = false) by (unfold is_decimal in Hch; lia). rewrite E95.
+      assert ((48 + 10 <=? ch) = false) by (unfold is_decimal in Hch; lia).
+      rewrite H. rewrite !andb_false_r. reflexivity.
+    + cbn [int_boundary] in Hb.
+      repeat (apply andb_prop in Hb as [Hb ?]).
+      rewrite digits_step_dec by (assumption || lia).
+      rewrite digits_stop.
+      * cbn [view fst snd]. reflexivity.
+      * change (10 <=? 10) with true. cbn iota.
+        destruct (is_decimal c); [discriminate|]. destruct (c =? 95); [discriminate|]. reflexivity.
+  - cbn [app forallb] in *. apply andb_prop in Hds as [Hd Hds].
+    assert (0 < d) by (unfold is_decimal in Hd; lia).
+    rewrite digits_step_dec by assumption.
+    rewrite IH by assumption.
+    rewrite <- app_assoc. cbn [app]. rewrite <- Z.lor_assoc. rewrite Z.lor_diag. reflexivity.
+Qed.
+
+Lemma boundary_view rest :
+  int_boundary rest = true ->
+  let c := fst (view rest) in
+  (c =? 46) = false /\ (lower c =? 101) = false /\
+  is_ident_rune L (lower c) true = false /\ is_ident_rune L c true = false.
+Proof.
+  destruct rest as [|c r]; cbn [int_boundary view fst].
+  - intros _. repeat split; reflexivity.
+  - intros Hb. repeat (apply andb_prop in Hb as [Hb ?]).
+    repeat match goal with H : negb _ = true |- _ => apply negb_true_iff in H end.
+    repeat split; assumption.
+Qed.
+
+Lemma digit_not_ident d : is_decimal d = true -> is_ident_rune L d true = false.
+Proof.
+  intros Hd. unfold is_decimal in Hd. unfold is_ident_rune.
+  rewrite (xid_start_ascii L HL) by lia.
+  replace (d =? 95) with false by lia. replace (d =? 92) with false by lia.
+  cbn [orb]. replace (0 <=? d) with true by lia. cbn [andb]. lia.
+Qed.
+
+(* C03, decimal integers: a literal d1 d2 ... dn without leading zero is the
+   INT token with exactly that text, whatever follows it (within the
+   boundary), end of input included. *)
+Theorem decimal_int_independent d ds rest :
+  is_decimal d = true -> d <> 48 -> forallb is_decimal ds = true ->
+  int_boundary rest = true ->
+  lex_one L ((d :: ds) ++ rest) =
+    LOk (Some (mktok TInt (str_of_bytes (d :: ds))), fst (view rest), snd (view rest)).
+Proof.
+  intros Hd H0 Hds Hb.
+  unfold lex_one. cbn [app next].
+  assert (Hc: check d = LOk tt).
+  { unfold check, is_decimal in *. replace (d =? 0) with false by lia. replace (d <? 0) with false by lia. reflexivity. }
+  rewrite Hc. cbn [lbind].
+  cbn [lex_tok]. rewrite skip_ws_not by (unfold is_ws, is_decimal in *; lia). cbn [lbind].
+  rewrite digit_not_ident by exact Hd. rewrite Hd.
+  unfold scan_number. replace (d =? 48) with false by lia. cbn [lbind].
+  replace (d =? 95) with false by (unfold is_decimal in Hd; lia).
+  rewrite digits10_run by assumption. cbn [lbind app].
+  change (Z.land (Z.lor 0 (Z.lor 0 1)) 1 =? 0) with false. cbn iota.
+  destruct (boundary_view rest Hb) as [B1 [B2 [B3 B4]]]. cbn zeta in *.
+  rewrite B1. unfold scan_number_tail. cbn [lbind].
+  rewrite B2, B3. cbn [lbind].
+  change (0 =? 0) with true. cbn [negb andb].
+  change (Z.land (Z.lor 0 (Z.lor 0 1)) 2 =? 0) with true. cbn [negb andb].
+  rewrite B4. reflexivity.
+Qed.
+
+(* ... and it denotes its mathematical value: NewInteger of the token text is
+   the decimal value of the digits, or a range error iff that exceeds int64 *)
+Theorem decimal_int_value l :
+  canon_nat_text l = true ->
+  parse_int0 L (str_of_bytes l) = if dec_value l <=? max_int64 then Some (dec_value l) else None.
+Proof. apply (parse_int0_dec L HL). Qed.
+End IntLit.
+
+Print Assumptions operators_independent.
+Print Assumptions decimal_int_independent.
